@@ -229,7 +229,8 @@ fn step_pow_ii_total() { let a: i64 = kani::any(); let b: i64 = kani::any();
     match ok(eval(Node::Pow(int(a), int(b)))) { Some(r) => { if b < 0 { assert!(is_from(&r, res()), "negative exponent: float power of the operands' doubles") } }, None => assert!(false, "never Err") } }
 
 // ---- factorial ------------------------------------------------------------------------------------------------------
-// @obligation owners=C09,C10,C15 fn=eval_number::ast::eval/Factorial(Integer) tier=thorough
+// @obligation owners=C09,C10,C15,C02,C01 fn=eval_number::ast::eval/Factorial(Integer)
+// full domain: the unwinding assertion is the iteration bound (the product loop runs only for 0 <= n <= 20)
 #[kani::proof]
 #[kani::unwind(22)]
 #[kani::stub(f64::sin, s_sin)]
